@@ -267,7 +267,7 @@ const (
 type c18Flow struct {
 	state    int
 	lastSeen int64
-	churn    int // rule-allowed packets of OTHER tuples since lastSeen (each is a conntrack insert or refresh)
+	churn    int // inserts of OTHER tuples (rule-allowed packets of untracked / stale tuples) (never tracked or refused before) made while this flow was already overdue
 }
 
 type c18Stat struct {
@@ -417,10 +417,13 @@ func (w *c18World) packet(i int) {
 			return
 		}
 		st.rulePass++
-		fresh := fl == nil || fl.state != c18Live
-		for t, o := range w.ref {
-			if t != pk.P && fresh {
-				o.churn++
+		if fl == nil || fl.state != c18Live {
+			// certainly a fresh insert of this tuple (never tracked, or refused since): unrelated churn for every other flow
+			// that is already overdue at this moment
+			for t, o := range w.ref {
+				if t != pk.P && o.state == c18Live && w.now-o.lastSeen > w.cfg.timeout(t.Protocol)+w.slack() {
+					o.churn++
+				}
 			}
 		}
 		w.ref[pk.P] = &c18Flow{state: c18Live, lastSeen: w.now}
@@ -600,12 +603,13 @@ func TestVerifC18(t *testing.T) {
 	c.Assume("routine-local cache: one real ConntrackCacheTicker per direction (as listenIn / listenOut have), period below the smallest timeout; their ticker goroutines run on the virtual clock and the harness waits for each tick to be counted")
 	c.Assume("timeouts are a few virtual seconds (tick = smallest timeout); production values differ only in scale")
 
+	// "wide": a TCP timeout far above UDP timeout + granted band, so that a mixed-up protocol timeout is outside the band
 	cfgs := []c18Cfg{
 		{"base", 6, 3, 4, 0},
-		{"cache", 6, 3, 4, 2},
+		{"wide+cache", 12, 3, 5, 2},
 	}
 	if c.Thorough() {
-		cfgs = append(cfgs, c18Cfg{"odd", 5, 2, 7, 0}, c18Cfg{"equal", 4, 4, 4, 1})
+		cfgs = append(cfgs, c18Cfg{"wide", 12, 3, 5, 0}, c18Cfg{"base+cache", 6, 3, 4, 2}, c18Cfg{"odd", 5, 2, 7, 0}, c18Cfg{"equal+cache", 4, 4, 4, 1})
 	}
 	alpha := c18Alphabet(c.Thorough())
 	maxDepth := mc.Pick(c, 5, 7)
@@ -667,6 +671,7 @@ func TestVerifC18(t *testing.T) {
 				return w.key(), menu
 			},
 		})
+		fmt.Printf("INFO C18 %v: states=%d transitions=%d depth=%d closed=%v t=%.1fs\n", cfg, res.States, res.Transitions, res.MaxDepth, res.Exhaustive, c.Elapsed())
 		perCfg[cfg.String()] = map[string]any{"states": res.States, "transitions": res.Transitions, "max_depth": res.MaxDepth, "closed": res.Exhaustive, "clock_steps": dl, "events": len(menu)}
 		if c.OutOfTime() {
 			complete = false
